@@ -583,3 +583,59 @@ pub fn trace_map(run: &mut Run, id: &str, src: &Beatmap, mods: &GameMods, plain:
     run.repro.insert(id.to_owned(), repro.to_owned());
     run.line(id, format!("MPT {total} {} {} {}", trace.seed, cd.to_bits(), objs.join(";")), format!("ok {}", expect.join(";")));
 }
+
+/// Targeted search for a 7K+1 previous pattern that violates `Free8` (all of columns 1-7 occupied, or
+/// a lone note in the special column): 8K conversions of maps built to fill columns — maximal
+/// `conversion_difficulty` (HP 10, AR >= 7, many objects per second), clap + finish samples (special
+/// column, two-note sliders), chords at equal times (previous-pattern carry-over), time gaps in every
+/// class of `HitObjectPatternGenerator::new`, sliders with 2-5 spans and segment durations above 400 ms
+/// (`generate_tiled_hold_notes`) and in the stair / multiple-notes ranges. Every conversion goes through
+/// `trace_map` (MPT line + the `mania-8K-*` oracles + the occupancy histogram).
+pub fn occupancy_search(run: &mut Run, tier: &str, seed: u64, only: Option<&str>) {
+    use crate::common::{decode, LazerTag, ModsSpec};
+    use crate::mapgen::{MapSpec, ObjKind, ObjSpec, TimingSpec};
+    let n = if tier == "thorough" { 40_000 } else { 1_500 };
+    let mods: GameMods = ModsSpec::Lazer(vec![LazerTag::Acronym("8K")]).build(3);
+    for ci in 0..n {
+        let id = format!("occ8-{ci}");
+        if only.is_some_and(|o| o != id) {
+            continue;
+        }
+        let mut rng = Rng::new(seed ^ hash64(&id));
+        let mut spec = MapSpec { hp: 10.0, ar: *rng.pick(&[7.0, 9.0, 10.0]), od: *rng.pick(&[0.0, 5.0, 10.0]), cs: *rng.pick(&[2.0, 4.0, 7.0]), ..MapSpec::default() };
+        spec.slider_multiplier = *rng.pick(&[0.4, 1.0, 1.4]);
+        let beat = *rng.pick(&[300.0, 500.0, 1000.0]);
+        spec.timing = vec![TimingSpec { time: 0.0, beat_len: beat, uninherited: true, kiai: rng.chance(1, 2) }];
+        let n_obj = 20 + rng.below(50) as usize;
+        let mut t = 1000.0;
+        for _ in 0..n_obj {
+            let gap = *rng.pick(&[0.0, 0.0, 30.0, 85.0, 100.0, 115.0, 130.0, 145.0, 200.0, 400.0]);
+            t += gap;
+            let x = if rng.chance(1, 2) { 256 } else { rng.range(0, 512) as i32 };
+            let sound = *rng.pick(&[12u8, 12, 14, 4, 8, 0, 2]);
+            let kind = match rng.below(10) {
+                0..=5 => ObjKind::Circle,
+                6..=8 => {
+                    let slides = 1 + rng.below(5) as u32;
+                    // velocity = 100 * sm / beat px per ms; segment duration = length / velocity
+                    let seg = *rng.pick(&[60.0, 100.0, 140.0, 180.0, 300.0, 450.0, 700.0]);
+                    let length = seg * 100.0 * spec.slider_multiplier / beat;
+                    t += 0.0;
+                    ObjKind::Slider { curve: 'L', points: vec![((x + 80).min(512), 192)], slides, length }
+                }
+                _ => ObjKind::Spinner { end: t + *rng.pick(&[50.0, 150.0, 1200.0]) },
+            };
+            spec.objects.push(ObjSpec { x, y: 192, time: t, sound, kind });
+        }
+        let text = spec.render();
+        let Ok(src) = decode(&text) else { continue };
+        let (s2, m2) = (src.clone(), mods.clone());
+        let Ok(Ok(plain)) = guarded(move || s2.convert(rosu_pp::model::mode::GameMode::Mania, &m2)) else {
+            run.fail("oracle:mania-convert", "", &id, "convert panicked or failed".into(), text.clone());
+            continue;
+        };
+        run.count("occ8:conversions");
+        trace_map(run, &id, &src, &mods, &plain, &text);
+        run.eval(Some(&id));
+    }
+}
